@@ -45,7 +45,7 @@ CHECKS = {
         'key / ID, dangling keyref / IDREF) is applied at every node of valid docgen documents (default parser and lxml, prefixed and '
         'default-namespace serialisations): the document must be invalid, an error must sit at the damaged node or its parent, none '
         'outside its ancestor chain and subtree, and every error path - evaluated by an independent evaluator with XPath namespace '
-        'rules - must select exactly error.elem; the path clause is also run on generically damaged corpus documents.',
+        'rules - must select exactly error.elem; the path clause is also run on generically damaged corpus documents. Documents also carry inner namespace scopes (a new prefix for the target namespace, the root prefix rebound) and a recursive section-in-section family.',
         'trusted: docgen fault knowledge (invalidity by construction); select() evaluator in vf/checks/c19.py',
         'DESIGN.md section 3 C19'),
     'C20': (
@@ -55,7 +55,7 @@ CHECKS = {
         'decode(path=p) must equal the sub-tree(s) of the full decoding; on damaged documents iter_errors(path=p) and '
         'iter_errors(max_depth=k) must equal the full-run errors located in the selected part / above the cut; decoded data under '
         'max_depth=k keeps exactly the nodes above the cut. Target namespaces vary under one prefix between cases; a 3-level family with '
-        'unique / key constraints on ancestors asserts identity errors of partial runs whenever the path keeps constraint scopes whole.',
+        'unique / key constraints on ancestors asserts identity errors of partial runs whenever the path keeps constraint scopes whole. Descendant paths (.//name), a default-namespace path form, names with _ - . and digits, and a schema document written with the XSD namespace as default namespace are included.',
         'trusted: the full run as reference; identity-constraint errors excluded from partial comparisons on docgen documents; max_depth=0 not asserted',
         'DESIGN.md section 3 C20'),
     'C17': (
@@ -64,7 +64,7 @@ CHECKS = {
         'depths are decoded under stacked / collapsed / root-only xmlns processing; every key of the decoded data is resolved with '
         'the declarations the data itself reports (XML Namespaces rules) and must be the node\'s expanded name; encoding the data '
         'must restore all expanded names; dictionary converters and DataElement are covered; unmap(map(q)) == q on random maps. '
-        'Two conventions of the library are listed known findings (default-namespace attributes, dictionary key collisions).',
+        'Two conventions of the library are listed known findings (default-namespace attributes, dictionary key collisions). The schema also has a leaf in NO namespace (xmlns="" under a default namespace); decoded keys of the default converter are resolved too; dictionary round trips are asserted on documents without sibling elements.',
         'trusted: the generator knows every node\'s expanded name by construction; resolver in vf/checks/c17.py',
         'DESIGN.md section 3 C17'),
     'C10': (
@@ -73,7 +73,7 @@ CHECKS = {
         '(full / abandoned iter_errors, strict failures, lax decoding with several converters, encode, to_objects, lazy runs, path= / '
         'max_depth=, stop-validation and mode-switching hooks, raising extra validators, component-level calls, copy) over pools of '
         'valid, invalid and malformed documents for 6 schema sources (xsi:type in identity scopes, wildcards, fixed values, XSD 1.1 '
-        'assertions / alternatives / open content, docgen, corpus); each result must equal a fresh schema\'s result for the same call.',
+        'assertions / alternatives / open content, docgen, corpus); each result must equal a fresh schema\'s result for the same call. A seventh pool holds identity constraints of two sibling scopes whose selectors reach xsi:type-substituted content.',
         'trusted: a freshly built schema as reference (its own determinism is checked by computing every reference twice)',
         'DESIGN.md section 3 C10'),
     'C09': (
@@ -82,7 +82,7 @@ CHECKS = {
         'imported namespaces x {2 permutations, reversal, 2-3 way split into includes, spelled locations (./, x/../, absolute, file://, '
         'percent-encoded), double inclusion under two spellings, import order, rebuild, copy, pickle} x valid and typed-fault probes; '
         'plus every corpus schema that builds (both XSD versions) x byte-slice permutation of its global components / rebuild / copy / '
-        'pickle with the XML files of its directory as probes. Compared: sorted global component signatures, error lists and typed data.',
+        'pickle with the XML files of its directory as probes. Compared: sorted global component signatures, error lists and typed data. Also nested includes (main -> sub/ -> sub/deep/), the main document loaded as text with base_url, and XSD 1.1 defaultAttributes with the group in an included document.',
         'trusted: the untransformed schema as reference; redefine/override/include/import children keep their place',
         'DESIGN.md section 3 C09'),
     'C06': (
@@ -91,7 +91,7 @@ CHECKS = {
         'sections/items template whose identity constraints span chunks are processed with XMLResource(lazy=1, thin_lazy on/off) and '
         'fully loaded: is_valid, the ordered (class, reason) error list of iter_errors, to_json data (default converter where children are '
         'contiguous, JsonML always) and the multiset of iterated elements with in-scope namespaces must agree; lazy=2,3 are explored and '
-        'reported. Six divergences of the lazy *decoding* route are listed known findings.',
+        'reported. Six divergences of the lazy *decoding* route are listed known findings. Further families: documents larger than the parser read buffer (keys across reads), local declarations that shadow differently typed global elements, nested inner namespace scopes.',
         'trusted: the fully loaded run as reference leg; error paths are not compared (C19)',
         'DESIGN.md section 3 C06'),
     'C05': (
@@ -100,7 +100,7 @@ CHECKS = {
         'default / BadgerFish / GData (where the model keeps same-named children contiguous and content is not mixed) must give '
         'XML that is valid, structurally equal, typed-value equal and that decodes to the same data; strict encode of data '
         'mutated by drop / duplicate / retype / reorder / rename / wrap must either raise a library error or return XML '
-        'the schema accepts. Crashes of encode on malformed data are known findings identified by call site.',
+        'the schema accepts. Crashes of encode on malformed data are known findings identified by call site. A template family adds elements whose declaration is reached indirectly (substitution-group members in place of the head, global list-typed elements admitted by lax / strict wildcards) for seven converters, documents with inner prefix scopes, and encode() without a path on a multi-global schema.',
         'trusted: docgen validity by construction; equality is schema-normalised (use_defaults=False, typed comparison)',
         'DESIGN.md section 3 C05'),
     'C08': (
@@ -108,7 +108,7 @@ CHECKS = {
         'Templates (1-2 fields on attributes or child elements; decimal/integer/boolean/string/QName; flat and nested scopes) '
         'x tables of key / keyref / unique rows over {absent, value A in two spellings, value B}: complete for one field and '
         '<= 2 rows per constraint (9261 documents per template in thorough), seeded samples for two fields, three rows and '
-        'several scope instances; ID/IDREF/IDREFS tables; both XSD versions; is_valid() against the reference in both directions.',
+        'several scope instances; ID/IDREF/IDREFS tables; both XSD versions; is_valid() against the reference in both directions. QName-typed fields are also exercised under a default namespace (target-namespace variant of the templates).',
         'trusted: oracle() in vf/checks/c08.py (qualified node sets, value-space tuples); unique with partly absent fields is unspecified',
         'DESIGN.md section 3 C08'),
     'C03': (
@@ -116,7 +116,7 @@ CHECKS = {
         'Random attribute uses (use, form, fixed/default, global refs to two namespaces, attribute group, wildcard constraint x '
         'processContents) for both XSD versions; every subset of a 10-name pool (all 1024 in thorough) with valid / variant / '
         'invalid values; is_valid() against the reference in both directions, and decoded attribute data against the '
-        'fixed/default/fill rules of the statement.',
+        'fixed/default/fill rules of the statement. Plus an exhaustive fixed-value matrix over 14 (type, fixed) pairs with equal / different lexical forms (NaN, INF, lists, unions, whitespace).',
         'trusted: the 60-line reference in vf/checks/c03.py (uses_of/oracle/expected_data); all declared attributes are xs:int',
         'DESIGN.md section 3 C03'),
     'C07': (
@@ -155,7 +155,7 @@ CHECKS = {
         'x 22 (target, spelling) pairs is executed for XSD 1.0 and 1.1 while sys.addaudithook records every file open and '
         'urllib request; no observed fetch may fall outside the allowed class (path-component containment for the sandbox), '
         'a denied file\'s marker declaration must be absent from the schema and must not change a verdict. Complete within '
-        'the catalogue; symlinks and platform-specific path forms are out of scope.',
+        'the catalogue; symlinks and platform-specific path forms are out of scope. Mechanisms also cover the schema-less package API (schema found through the hint of the document) and namespaces loaded on demand during validation from the locations map; spellings include dotted file URLs.',
         'trusted: the audit hook sees every open/urllib.Request of the process; stub opener stands for remote hosts',
         'DESIGN.md section 3 C12'),
     'C13': (
@@ -181,7 +181,7 @@ CHECKS = {
         'Scopes S1 (1 171 050 models), S2 (183 424) and S3 (27 108) are enumerated completely in the thorough tier (seeded '
         'slice in quick) for both XSD versions, plus a fixed pool of 24 000 larger models; the library\'s model error is '
         'compared in both directions with weak determinism of the unrolled Glushkov automaton + EDC. The models the pinned '
-        'tree mis-judges are listed explicitly (known findings, ~27 000 per version); any other disagreement is a violation.',
+        'tree mis-judges are listed explicitly (known findings, ~27 000 per version); any other disagreement is a violation. Three more scopes: a fixed sample of models with prohibited (maxOccurs=0) particles, namespace-list wildcards meeting only on ##local, and (XSD 1.1) two substitution heads sharing a member.',
         'trusted: vf/oracles/cm.py (self-tested against Python re on every run); strict-vs-lax build equivalence is sampled',
         'DESIGN.md section 3 C15'),
     'C16': (
@@ -190,7 +190,7 @@ CHECKS = {
         'wildcards, notQName in 1.1) is enumerated completely; membership, union, intersection, restriction and '
         'overlap are compared with plain set operations on a universe that has a witness for every distinguishable '
         'region, through wildcard objects and through validation/build verdicts. Within this finite space the '
-        'answer is complete; nothing is claimed for several target namespaces or ##defined.',
+        'answer is complete; nothing is claimed for several target namespaces or ##defined. After every combination the operands themselves are checked again (no state shared between a wildcard and its copies).',
         'trusted: the 60-line set-denotation reference (vf/oracles/wild.py); single target namespace',
         'DESIGN.md section 3 C16'),
 }
